@@ -26,12 +26,20 @@ inductive Outcome
   | fails (dispatched : Nat) (completions : List Nat) -- a handled failure: task/init/exit exception, timeout, death, interrupt
   | leftOpen (dispatched : Nat) (completions : List Nat)  -- lazy call: generator neither exhausted nor closed
   | closedEarly (dispatched : Nat) (completions : List Nat) -- lazy call: generator closed / collected before the end
+  | rejected                                            -- refused while its arguments are validated (before anything is started)
+  deriving Repr, DecidableEq
+
+/-- how a batch of apply / apply_async submissions ends, as far as the pool's control state is concerned -/
+inductive ApplyOutcome
+  | settled (assigned : Nat) (completions : List Nat)     -- every task succeeded, raised or timed out on its own; a worker that died was replaced
+  | poolFailed (assigned : Nat) (completions : List Nat)  -- worker_init / worker_exit failed: the exception flag is raised and the workers shut down
   deriving Repr, DecidableEq
 
 inductive Op
   | setKeepAlive (b : Bool)
   | setPoolParam (changes : Bool)        -- pass_on_worker_id / set_shared_objects / set_use_worker_state
   | call (ordered : Bool) (p : ParamsId) (o : Outcome)
+  | apply (p : ParamsId) (o : ApplyOutcome)
   | stopAndJoin (keepAlive : Bool)
   | terminate
   deriving Repr, DecidableEq
@@ -47,17 +55,23 @@ def terminate (s : Ctl) : Ctl :=
   | none => s
   | some _ => { s with workers := none, excFlag := true }
 
+/-- an earlier apply batch can have left the pool flagged as failed with its (stopped) workers still registered:
+the next call cleans that up first -/
+def cleanupFailed (s : Ctl) : Ctl :=
+  if s.workers.isSome && s.excFlag then terminate s else s
+
 /-- prologue of `imap_unordered` up to the point where tasks are dispatched; `none`: "another map is running" -/
 def callStart (s : Ctl) (ordered : Bool) (p : ParamsId) : Option Ctl :=
   let s := if ordered then { s with keepOrder := true } else s
   if s.mapRunning then none
   else
     let s := { s with mapRunning := true }
+    let s := cleanupFailed s
     let s := if s.workers.isSome && !s.initialized then { s with workers := none } else s   -- stop_and_join(keep_alive=False)
     let s := match s.workers with
       | some _ => { s with workers := some p }      -- add_new_map_params when they differ
       | none => startWorkers s p
-    some s
+    some { s with taskIdx := 0, lastCompleted := [] }   -- chunk numbering starts at 0 with every call (apply tasks advance it too)
 
 /-- the `finally` of imap_unordered -/
 def callFinally (s : Ctl) : Ctl :=
@@ -69,15 +83,21 @@ def dispatchEffects (s : Ctl) (dispatched : Nat) (completions : List Nat) : Ctl 
 def step (s : Ctl) : Op → Ctl
   | .setKeepAlive b => { s with keepAlive := b }
   | .setPoolParam changes => if changes then { s with initialized := false } else s
-  | .stopAndJoin ka => if s.workers.isSome ∧ ¬ ka then { s with workers := none } else s
+  | .stopAndJoin ka =>
+    -- a pool that an apply batch flagged as failed: the stored error is handled (terminate, raise) instead of joining
+    if s.workers.isSome ∧ s.excFlag then { (terminate s) with keepOrder := false }
+    else if s.workers.isSome ∧ ¬ ka then { s with workers := none } else s
   | .terminate => terminate s
   | .call ordered p o =>
+    -- the arguments are validated before anything else happens: a rejected call starts nothing and withdraws its order mode
+    if o = .rejected then { s with keepOrder := false } else
     match callStart s ordered p with
     | none =>
       -- "Cannot call 'map' while another 'map' is running": handled like any failure, and the finally runs
       callFinally { (terminate { s with excFlag := true }) with keepOrder := false }
     | some s1 =>
       match o with
+      | .rejected => s                                                        -- (handled above)
       | .ok d c =>
         let s2 := dispatchEffects s1 d c
         let s2 := if s2.keepAlive then s2 else { s2 with workers := none }     -- stop_and_join(keep_alive)
@@ -89,6 +109,14 @@ def step (s : Ctl) : Op → Ctl
         let s2 := terminate (dispatchEffects s1 d c)
         callFinally { s2 with keepOrder := false }
       | .leftOpen d c => dispatchEffects s1 d c                               -- suspended inside the generator
+  | .apply p o =>
+    let s := cleanupFailed s
+    let s := match s.workers with
+      | some _ => s                                 -- running workers are used as they are
+      | none => startWorkers s p
+    match o with
+    | .settled d c => dispatchEffects s d c
+    | .poolFailed d c => { (dispatchEffects s d c) with excFlag := true }
 
 def runOps (s : Ctl) (ops : List Op) : Ctl := ops.foldl step s
 
